@@ -34,7 +34,7 @@ def add_threaded(rng, c):
     m = c['max_send']
     pre = [rng.choice([None, None, 1, 2, m, 'block', 0]) for _ in range(rng.choice([0, 2, 5]))]
     if rng.random() < 0.1:
-        pre.append(rng.choice(['pipe', 'oserror']))
+        pre.append(rng.choice(['pipe', 'oserror', 'reset']))
     c['sel'] = pre + [rng.choice([1, 2, m, m + 1, 100000]) for _ in range(rng.choice([3, 60, 250]))]
     return c
 
@@ -118,7 +118,7 @@ def oracle(case, out):
     if threaded:
         # shutdown()'s blocking flush: complete delivery whenever the scripted selector let the client keep reading
         sel = case.get('sel', [])
-        clean = not any(x in ('pipe', 'oserror') for x in sel)
+        clean = not any(x in ('pipe', 'oserror', 'reset') for x in sel)
         pend0 = steps[-1]['cpend'] if steps else 0          # pending when the loop ended, before shutdown()
         enough = clean and sum(1 for x in sel if isinstance(x, int) and x > 0) >= 2 * pend0 + 2
         if fin['cout'] != queued and enough:
